@@ -389,7 +389,17 @@ func (c *certificateV2) fromTBSCertificate(t *TBSCertificate) error {
 }
 
 func (c *certificateV2) validate() error {
-	// Empty names are allowed
+	// The decoder refuses an empty name, a name longer than MaxNameLength and empty group
+	// strings, so signing such a certificate would produce something nobody can read back.
+	if len(c.details.name) == 0 || len(c.details.name) > MaxNameLength {
+		return NewErrInvalidCertificateProperties("name must be between 1 and %d bytes long", MaxNameLength)
+	}
+
+	for _, g := range c.details.groups {
+		if g == "" {
+			return NewErrInvalidCertificateProperties("groups may not contain an empty string")
+		}
+	}
 
 	if len(c.publicKey) == 0 {
 		return ErrInvalidPublicKey
